@@ -9,6 +9,8 @@ CLAIMS = {
          "Decides that no token/child/value field of any go/ast node type is dropped in either direction and that no converter assertion can fail; does not decide text equality after go/printer.", "4 C03"),
  "C04": ("render-site analysis of the generated restorer against go/types Decs structs, fragger order and listing/accessor",
          "Each decoration point rendered exactly once, unconditionally, after its namesake; listing/accessor clauses decided; placement is relative to synthetic positions, not through go/printer.", "4 C04"),
+ "C05": ("constant propagation through applySpace over its complete 24-class input partition + statement-order rules for line breaks and the fresh-line marker",
+         "Decides the restorer's half of the non-additive spacing rule (number of line breaks handed to go/printer per SpaceType and fresh-line state); the visible max(After,Before) outcome is produced by go/printer and is not decided.", "4 C05"),
  "C06": ("per-field completeness + alias-freedom analysis of Clone against restore's reads and go/types struct facts",
          "Decides Clone completeness/alias-freedom and duplicate rejection structurally for every node type.", "4 C06"),
  "C11": ("allocation/registration ordering analysis of both converters (event order, non-nil keys, memo lookup)",
@@ -34,7 +36,7 @@ CLAIMS = {
 NOT_APPLICABLE = {
  "C10": "meaning preservation of moved code needs a type checker run over output programs; no static rule over dst's source bounds it (DESIGN.md 4, C10)",
 }
-PENDING = ["C02", "C05", "C07", "C08", "C09", "C15"]
+PENDING = ["C02", "C07", "C08", "C09", "C15"]
 
 props = [json.loads(l)["id"] for l in open("/verif/properties.jsonl")]
 checks = []
